@@ -223,6 +223,7 @@ fn main() {
             let pairs: usize = arg(&args, "--pair-drops", "0").parse().unwrap();
             sstr::stress(seed, threads, slots, contents, rounds, ops, pairs, &mut out);
         }
+        "uid-pairs" => sstr::uid_pairs(&mut out),
         "uid-stress" => {
             let threads: usize = arg(&args, "--threads", "8").parse().unwrap();
             let calls: usize = arg(&args, "--calls", "2000").parse().unwrap();
